@@ -538,3 +538,95 @@ S.EXTRA_SITES += [
     ("vertex2d._initialize_attributes (imperative)", lambda: gen_init_attrs("verts")),
     ("connection.FlatConnectionFaces.transport (imperative)", gen_flat_faces),
 ]
+
+# ----------------------------------------------------------------------------------------------------------------
+# round 8: cotan_edge_diagonal, FlatConnectionVertices.transport, option names read by the constructors
+# ----------------------------------------------------------------------------------------------------------------
+def gen_cotan_edge_diagonal():
+    fn = load_fn(LAP, "cotan_edge_diagonal")
+    if [a.arg for a in fn.args.args] != ["mesh", "inverse"]: raise TranslateError("cotan_edge_diagonal: parameters")
+    body = strip(fn.body)
+    loop = _one([s for s in body if isinstance(s, ast.For)], "cotan_edge_diagonal: loop")
+    if not (U(loop.iter) == "enumerate(mesh.edges)" and isinstance(loop.target, ast.Tuple) and isinstance(loop.target.elts[1], ast.Tuple)):
+        raise TranslateError("cotan_edge_diagonal: loop is not over enumerate(mesh.edges)")
+    ie = U(loop.target.elts[0]); u, v = (U(x) for x in loop.target.elts[1].elts)
+    if not (isinstance(body[-1], ast.Return) and U(body[-1].value) in ("sp.diags(coeffs,format='csc')", "sp.diags(coeffs).tocsc()")):
+        raise TranslateError(f"cotan_edge_diagonal does not return sp.diags(coeffs): {U(body[-1])[:80]}")
+    lb = strip(loop.body)
+    kinds = [U(x.targets[0]) if isinstance(x, ast.Assign) else type(x).__name__ for x in lb]
+    if kinds != ["(T1,uT1,vT1)", "(T2,vT2,uT2)", "(cT1,cT2)", "If", "If", "If"]: raise TranslateError(f"cotan_edge_diagonal: statements of the loop are {kinds}")
+    if U(lb[0].value) != f"mesh.connectivity.direct_face({u},{v},True)" or U(lb[1].value) != f"mesh.connectivity.direct_face({v},{u},True)":
+        raise TranslateError("cotan_edge_diagonal: T1 / T2 are not direct_face(u,v,True) / direct_face(v,u,True)")
+    z = lb[2].value
+    if not (isinstance(z, ast.Tuple) and [ratlit(x) for x in z.elts] == ["((0 : Rat) / 1)"] * 2): raise TranslateError("cotan_edge_diagonal: cT1,cT2 do not start from 0")
+    slots = []
+    for k, g in ((1, lb[3]), (2, lb[4])):
+        gb = strip(g.body)
+        if not (U(g.test) == f"T{k}isnotNone" and not g.orelse and len(gb) == 3): raise TranslateError(f"cotan_edge_diagonal: guard {k} is not `if T{k} is not None:` with three statements")
+        w = gb[0]
+        if not (isinstance(w.value, ast.Subscript) and U(w.value.value) == f"mesh.faces[T{k}]"): raise TranslateError(f"cotan_edge_diagonal: opposite vertex {k} is not mesh.faces[T{k}][..]")
+        from ..translate import lean_int_expr
+        slots.append(lean_int_expr(w.value.slice, {f"uT{k}": "iu", f"vT{k}": "iv"}))
+        if U(gb[1].value) != f"mesh.connectivity.vertex_to_corner_in_face({U(w.targets[0])},T{k})": raise TranslateError(f"cotan_edge_diagonal: corner {k} is not vertex_to_corner_in_face(w,T{k})")
+        if not (U(gb[2].targets[0]) == f"cT{k}" and U(gb[2].value) == f"cotan[{U(gb[1].targets[0])}]"): raise TranslateError(f"cotan_edge_diagonal: cT{k} is not cotan[c]")
+    if slots[0] != slots[1]: raise TranslateError("cotan_edge_diagonal: the two opposite-vertex index expressions differ")
+    sel = lb[5]
+    if U(sel.test) != "inverse": raise TranslateError("cotan_edge_diagonal: selection is not `if inverse`")
+    ib, eb = strip(sel.body), strip(sel.orelse)
+    if not (len(ib) == 1 and isinstance(ib[0], ast.If) and len(eb) == 1): raise TranslateError("cotan_edge_diagonal: branches of `if inverse`")
+    t = ib[0].test
+    if not (isinstance(t, ast.Compare) and isinstance(t.ops[0], (ast.Lt, ast.LtE)) and U(t.left) in ("abs(cT1+cT2)", "abs(cT2+cT1)")): raise TranslateError(f"cotan_edge_diagonal: guard is not abs(cT1+cT2) < THR: {U(t)}")
+    rel = "<" if isinstance(t.ops[0], ast.Lt) else "≤"
+    thr = ratlit(t.comparators[0])
+    big = strip(ib[0].body)[0]; inv = strip(ib[0].orelse)[0]
+    if U(big.targets[0]) != f"coeffs[{ie}]" or U(inv.targets[0]) != f"coeffs[{ie}]" or U(eb[0].targets[0]) != f"coeffs[{ie}]": raise TranslateError("cotan_edge_diagonal: a branch does not write coeffs[ie]")
+    at = vnames({"cT1": "v_cT1", "cT2": "v_cT2"})
+    txt = (f"/-- `operators.cotan_edge_diagonal` ({LAP}): position (in its face) of the vertex opposite to the side whose ends sit at positions `iu`, `iv` -/\n"
+           f"def oppositeSlot (iu iv : Nat) : Nat := {slots[0]}\n"
+           f"/-- the coefficient of one edge: `c1`, `c2` = `cotan[corner of the opposite vertex]` in `direct_face(u,v)` resp. `direct_face(v,u)` (`none` on the border side) -/\n"
+           f"def cotanEdgeWeight (inverse : Bool) (c1 c2 : Option Rat) : Rat :=\n"
+           f"  let v_cT1 : Rat := 0\n  let v_cT2 : Rat := 0\n"
+           f"  let v_cT1 := match c1 with | some c => c | none => v_cT1\n"
+           f"  let v_cT2 := match c2 with | some c => c | none => v_cT2\n"
+           f"  if inverse then (if rabs {vexpr(t.left.args[0], at)} {rel} {thr} then {vexpr(big.value, at)} else {vexpr(inv.value, at)})\n"
+           f"  else {vexpr(eb[0].value, at)}\n"
+           f"/-- the diagonal, edge by edge (`enumerate(mesh.edges)`) -/\n"
+           f"def cotanEdgeDiagonal (inverse : Bool) (edges : List (Option Rat × Option Rat)) : List Rat := edges.map (fun e => cotanEdgeWeight inverse e.1 e.2)\n")
+    return txt, {"slot": slots[0], "thr": thr}
+
+
+def gen_flat_verts():
+    fn = load_fn(CONN, "FlatConnectionVertices.transport")
+    b = strip(fn.body)
+    a = [x.arg for x in fn.args.args]
+    ok = len(b) == 2 and isinstance(b[0], ast.Assign) and U(b[0].value) == f"self.mesh.vertices[{a[2]}]-self.mesh.vertices[{a[1]}]" \
+        and isinstance(b[1], ast.Return) and U(b[1].value) in (f"np.arctan2({U(b[0].targets[0])}.y,{U(b[0].targets[0])}.x)", f"math.atan2({U(b[0].targets[0])}.y,{U(b[0].targets[0])}.x)")
+    if not ok: raise TranslateError("FlatConnectionVertices.transport is not arctan2 of vertices[iB] - vertices[iA]")
+    txt = (f"/-- `FlatConnectionVertices.transport` ({CONN}): `dir a b` = `arctan2` of the planar direction of `vertices[b] - vertices[a]`, in turns -/\n"
+           f"def flatVertsTransport (dir : Nat → Nat → Rat) (iA iB : Nat) : Rat := dir iA iB\n")
+    return txt, {}
+
+
+def gen_ctor_options():
+    out = {}
+    for rel, cls, nm in ((FACES, "_BaseFrameField2DFaces", "ctorOptionsFaces"), (VERTS, "_BaseFrameField2DVertices", "ctorOptionsVerts")):
+        fn = load_fn(rel, f"{cls}.__init__")
+        opts = []
+        for n in ast.walk(fn):
+            if isinstance(n, ast.Call) and U(n.func) == "kwargs.get" and n.args and isinstance(n.args[0], ast.Constant):
+                opts.append((n.args[0].value, U(n.args[1]) if len(n.args) > 1 else "None"))
+        pos = [a.arg for a in fn.args.args[1:]]
+        out[nm] = (pos, opts)
+    txt = ""
+    for nm, (pos, opts) in out.items():
+        txt += (f"/-- `__init__` of the field class: positional parameters and the keyword options it reads with `kwargs.get(name, default)` -/\n"
+                f"def {nm}Positional : List String := [{', '.join(chr(34) + p + chr(34) for p in pos)}]\n"
+                f"def {nm} : List (String × String) := [{', '.join('(' + chr(34) + k + chr(34) + ', ' + chr(34) + d + chr(34) + ')' for k, d in opts)}]\n")
+    return txt, {k: str(v) for k, v in out.items()}
+
+
+S.EXTRA_SITES += [
+    ("laplacian_op.cotan_edge_diagonal (imperative)", gen_cotan_edge_diagonal),
+    ("connection.FlatConnectionVertices.transport (imperative)", gen_flat_verts),
+    ("faces2d / vertex2d __init__: positional parameters and kwargs options read", gen_ctor_options),
+]
